@@ -327,7 +327,7 @@ fn exec_two(sc: &Scn, render: bool) -> RunOutput {
         }
     }
     drop(obs);
-    let out = RunOutput { steps: w.sim.steps, fingerprints: fps, outcome: h.0, violations: viol, witnesses: wit, horizon, rendering: render.then(|| w.sim.render_log().join(" ")) };
+    let out = RunOutput { blocked: false, steps: w.sim.steps, fingerprints: fps, outcome: h.0, violations: viol, witnesses: wit, horizon, rendering: render.then(|| w.sim.render_log().join(" ")) };
     w.sim.teardown();
     out
 }
@@ -424,7 +424,7 @@ fn exec_raw(retries: usize, reject: usize, then_accept: bool, script: &[u32], re
     let mut h = Fnv::default();
     h.str(&format!("{connect_ids:?} {ok} {err:?}"));
     drop(obs);
-    let out = RunOutput { steps: w.sim.steps, fingerprints: fps, outcome: h.0, violations: viol, witnesses: wit, horizon: false, rendering: render.then(|| format!("{:?}", raw.got)) };
+    let out = RunOutput { blocked: false, steps: w.sim.steps, fingerprints: fps, outcome: h.0, violations: viol, witnesses: wit, horizon: false, rendering: render.then(|| format!("{:?}", raw.got)) };
     w.sim.teardown();
     out
 }
